@@ -21,8 +21,11 @@
                                   applied, whatever was served in whatever order
   S6  serve_wrong_peer / serve_occupied / serve_incomplete / removePeer_clears / pop_height
                                   the pool's bookkeeping
-  S7  verify_ok_slots             (repaired) a verified commit names in every slot the validator of
-                                  that slot, which is what `reconstructLastCommit` needs
+  S7  verify_ok_slots, verified_commit_rebuilds, applied_can_leave
+                                  (repaired) a verified commit names in every slot the validator of
+                                  that slot; `reconstructLastCommit` adds every one of its precommits
+                                  and finds the +2/3 majority (loop invariant in Lemmas/Reconstruct.lean);
+                                  so a node that applied a block by fast sync can leave fast sync
   counter-theorems                as found: a commit that verifies but cannot be rebuilt (the node
                                   panics when it leaves fast sync, and at every later start); RedoRequest
                                   panics when the block has gone; a response without LastCommit panics
@@ -31,6 +34,7 @@
 import AnnVerif.Model.Sync
 import AnnVerif.Model.Handoff
 import AnnVerif.Lemmas.BlockValid
+import AnnVerif.Lemmas.Reconstruct
 import AnnVerif.Props.C02
 namespace AnnVerif.C13
 open AnnVerif AnnVerif.VoteSet AnnVerif.Block AnnVerif.Sync
@@ -45,7 +49,8 @@ theorem complete_applied (cfg : Sync.Cfg) (ch : Changes) (vh : Int → Bytes) (s
     validateBlock cfg.blk sigok s.cs first.blk = .ok ∧
     s'.applied = s.applied ++ [(first, second)] ∧
     s'.cs = advanceState ch vh s.cs first ∧
-    s'.pool = pop s.pool := by
+    s'.pool = pop s.pool ∧
+    verifyCommit cfg.blk.vs sigok s.cs.validators first.id first.blk.hdr.height second.blk.commit = .ok := by
   unfold complete at h
   split at h
   · cases h
@@ -56,7 +61,7 @@ theorem complete_applied (cfg : Sync.Cfg) (ch : Changes) (vh : Int → Bytes) (s
       · split at h
         · rename_i hb
           cases h
-          exact ⟨verifyCommit_sound _ sigok _ _ _ _ hpos hv, hb, rfl, rfl, rfl⟩
+          exact ⟨verifyCommit_sound _ sigok _ _ _ _ hpos hv, hb, rfl, rfl, rfl, hv⟩
         · cases h
     · cases h
     · split at h
@@ -94,7 +99,7 @@ theorem trySync_applied (cfg : Sync.Cfg) (ch : Changes) (vh : Int → Bytes) (si
   split at h
   · rename_i first second hp
     simp only [Prod.mk.injEq] at hp
-    obtain ⟨a, _, c, _, _⟩ := complete_applied cfg ch vh sigok s s' first second hpos h
+    obtain ⟨a, _, c, _, _, _⟩ := complete_applied cfg ch vh sigok s s' first second hpos h
     exact ⟨first, second, hp.1, hp.2, a, c⟩
   · cases h
 
@@ -199,7 +204,7 @@ theorem iterate_inv (cfg : Sync.Cfg) (ch : Changes) (vh : Int → Bytes) (sigok 
         ((complete cfg ch vh sigok s first second).1, .applied) := by rw [← hap]
     have hpos : ∀ val ∈ s.cs.validators, 0 ≤ val.power := by
       rw [inv.vals]; exact valsAt_nonneg ch g hg hch _
-    obtain ⟨hj, hvb, happ, hcs, _⟩ := complete_applied cfg ch vh sigok s _ first second hpos heq
+    obtain ⟨hj, hvb, happ, hcs, _, _⟩ := complete_applied cfg ch vh sigok s _ first second hpos heq
     have hext := C02.accepted_extends cfg.blk sigok s.cs first.blk hvb
     have hh : first.blk.hdr.height = (s.applied.length : Int) + 1 := by rw [hext.height, inv.height]
     generalize (complete cfg ch vh sigok s first second).1 = s' at *
@@ -360,6 +365,82 @@ theorem verify_ok_slots (sigok : Nat → Vote → Bool) (vals : List Validator) 
   intro j v hj
   have := verifyCommit_slots VoteSet.repaired rfl sigok vals b height c h j v hj
   simpa [SlotOk] using this
+
+/-- S7 in full (repaired): a commit that `VerifyCommit` accepts is one `reconstructLastCommit` can
+    rebuild - every precommit is added, and the rebuilt vote set reports a +2/3 majority. The node
+    that stored it as its seen-commit can leave fast sync and can start again. -/
+theorem verified_commit_rebuilds (sigok : Nat → Vote → Bool) (vals : List Validator)
+    (hpos : ∀ val ∈ vals, 0 ≤ val.power) (haddr : ∀ val ∈ vals, val.addr ≠ [])
+    (b : BlockID) (height : Int) (c : Commit)
+    (h : verifyCommit VoteSet.repaired sigok vals b height c = .ok) :
+    reconstruct VoteSet.repaired sigok vals height c = true := by
+  obtain ⟨hlen, R, hcj, htally⟩ := verifyCommit_sound VoteSet.repaired sigok vals b height c hpos h
+  have hso := verifyCommit_slots VoteSet.repaired rfl sigok vals b height c h
+  have htot := total_nonneg vals hpos
+  have hs : SlotsVerified sigok vals height R c.precommits := by
+    intro j v hj
+    obtain ⟨a1, a2, a3, a4⟩ := hcj j v hj
+    obtain ⟨b1, b2⟩ := hso j v hj
+    exact ⟨a1, a2, a3, a4, by simpa using b1, b2⟩
+  have hpos_t : 0 < tallyB b (powers vals) c.precommits := by omega
+  -- the round `reconstructLastCommit` takes from the commit is the commit's round
+  have hround : commitRound c.precommits = R := by
+    unfold commitRound
+    cases hf : firstPrecommit c.precommits with
+    | none => have := firstPrecommit_none_tallyB b (powers vals) _ hf; omega
+    | some f =>
+      obtain ⟨j, hj⟩ := firstPrecommit_some _ _ hf
+      exact (hcj j f hj).2.1
+  rw [reconstruct_eq, hround]
+  have r0 : RInv vals c.precommits 0 (VoteSet.new height R 2 vals) := by
+    refine ⟨by simp [VoteSet.new], rfl, ?_, ?_, ?_, ?_⟩
+    · intro k bv hl; simp [VoteSet.new, lookup] at hl
+    · intro i _ hn; simp [VoteSet.new, List.getElem?_replicate, hn]
+    · intro k bv hl; simp [VoteSet.new, lookup] at hl
+    · intro i v hi; omega
+  obtain ⟨vs', hist', hloop, hr, hinv, hsp⟩ := loop_ok sigok vals hpos haddr height R c.precommits hlen hs
+    c.precommits 0 _ [] (by simp) r0 (inv_new VoteSet.repaired height R 2 vals hpos) (SameParams.refl _)
+  rw [hloop]
+  simp only
+  cases hm : vs'.maj23 with
+  | some _ => rfl
+  | none =>
+    exfalso
+    obtain ⟨j, v, hj, hvb⟩ := tallyB_pos_exists b _ _ hpos_t
+    have hjl : j < c.precommits.length := by
+      have := List.getElem?_eq_some_iff.mp hj; exact this.1
+    obtain ⟨bv, hl, _⟩ := hr.complete j v hjl hj
+    have hsum := hinv.entrySum _ _ hl
+    have hnone := hinv.majNone hm _ _ hl
+    have hvals : vs'.vals = vals := hr.valsEq
+    rw [hvals] at hsum hnone
+    have hle : tallyB b (powers vals) c.precommits ≤ tally (powers vals) bv.votes := by
+      apply tallyB_le_tally b (powers vals)
+      · intro p hp; simp [powers] at hp; obtain ⟨val, hv, rfl⟩ := hp; exact hpos val hv
+      · rw [hlen, hr.entryLen _ _ hl]
+      · intro j' v' hj' hb'
+        have hjl' : j' < c.precommits.length := (List.getElem?_eq_some_iff.mp hj').1
+        obtain ⟨bv', hl', hv'⟩ := hr.complete j' v' hjl' hj'
+        rw [hb', ← hvb] at hl'
+        rw [hl] at hl'; cases hl'
+        exact ⟨v', hv'⟩
+    unfold quorum at hnone
+    omega
+
+
+/-- S7'': (repaired) a node that has just applied a block by fast sync can leave fast sync - the
+    seen-commit it stored is one `reconstructLastCommit` rebuilds -/
+theorem applied_can_leave (ch : Changes) (vh : Int → Bytes) (sigok : Nat → Vote → Bool)
+    (s s' : St) (first second : Served)
+    (hpos : ∀ val ∈ s.cs.validators, 0 ≤ val.power) (haddr : ∀ val ∈ s.cs.validators, val.addr ≠ [])
+    (h : complete Sync.repaired ch vh sigok s first second = (s', .applied)) :
+    canLeave Sync.repaired sigok s' = true := by
+  obtain ⟨_, _, happ, hcs, _, hv⟩ := complete_applied Sync.repaired ch vh sigok s s' first second hpos h
+  unfold canLeave
+  rw [happ, List.getLast?_append]
+  simp only [List.getLast?_singleton, Option.some_or]
+  rw [hcs]
+  exact verified_commit_rebuilds sigok s.cs.validators hpos haddr first.id first.blk.hdr.height second.blk.commit hv
 
 /-! ### counter-theorems: the three defects as found -/
 
